@@ -93,14 +93,14 @@ double GMGPolar::meanResidualReductionFactor() const
 // Only when exact solution provided
 std::optional<double> GMGPolar::exactErrorWeightedEuclidean() const
 {
-    if (exact_solution_) {
+    if (exact_solution_ && !exact_errors_.empty()) {
         return exact_errors_.back().first;
     }
     return std::nullopt;
 }
 std::optional<double> GMGPolar::exactErrorInfinity() const
 {
-    if (exact_solution_) {
+    if (exact_solution_ && !exact_errors_.empty()) {
         return exact_errors_.back().second;
     }
     return std::nullopt;
